@@ -2,7 +2,7 @@
     unit, list, prod, sumbool, sumor map to OCaml's; nat, positive, N, Z stay
     the extracted inductive types.  No Extract Constant. *)
 From Coq Require Import Extraction ExtrOcamlBasic.
-From Meddly Require Import Model.DD Model.EvDD Model.RefStore Model.OptStore Model.Counter Model.Build Model.Scalar Model.Bits Gen.Terminal Gen.Levels Model.MemSpec Model.Audit Model.Reach Model.Enum Model.Reorder Model.Lifecycle Model.Product Model.EnumOpt.
+From Meddly Require Import Model.DD Model.EvDD Model.RefStore Model.OptStore Model.Counter Model.Build Model.Scalar Model.Bits Gen.Terminal Gen.Levels Model.MemSpec Model.Audit Model.Reach Model.Enum Model.Reorder Model.Lifecycle Model.Precheck Model.Product Model.EnumOpt.
 Extraction Language OCaml.
 Extraction "model.ml"
   DD.dd_eqb DD.mk DD.unpack DD.evalS DD.evalL DD.eval DD.reducedb DD.of_fun
@@ -19,6 +19,6 @@ Extraction "model.ml"
   Reorder.permute_dd
   Lifecycle.ls_init Lifecycle.lstep
   Product.prod_countN Product.unrankN Product.rankN
-  EnumOpt.enum_opt
+  EnumOpt.enum_opt Precheck.precheck
   Levels.isLevelAbove Levels.MXD_downLevel Levels.MXD_upLevel Levels.MXD_topLevel Levels.MXD_topUnprimed
   Levels.MXD_unprimedOfLevel Levels.MXD_primedOfLevel Levels.MDD_downLevel Levels.MDD_upLevel Levels.MDD_topLevel.
